@@ -455,5 +455,8 @@ def run(chk):
     # parameter names reach the binding loop through the parser's argument split (shared with C10.A)
     from .c10 import check_arg_split
     from ..lowering import ParserModel
+    from .c10 import check_layout_sim
+    chk.rule('C10.L', 'shared with C10: every respelling of a function header gives the same parameter names (parse_script evaluated on layout variants, E6p)')
+    layout_ok = chk.guard('C10.L', check_layout_sim, chk)
     chk.rule('C10.A', 'shared with C10: the parameter-list split consumes exactly the separator the function-begin regex allows (no blank ends up inside a parameter name)')
-    chk.guard('C10.A', lambda: check_arg_split(chk, ParserModel(chk.repo, 'C10.A')))
+    (chk.advisory if layout_ok else chk.guard)('C10.A', lambda: check_arg_split(chk, ParserModel(chk.repo, 'C10.A')))
